@@ -1,4 +1,5 @@
 import Bluge.Codec
+import Bluge.C12.Script
 import BlugeProofs.C12.Uvarint
 import BlugeProofs.C12.Reader
 import BlugeProofs.C12.Decode
@@ -434,6 +435,44 @@ set_option maxRecDepth 16384 in
 theorem no_fallback_after_fault :
     openReader opaqueRoar Cfg.pinned true (fun _ _ => true) (fun _ => true) [tinyFile.set 10 4, tinyFile] 0 = .fault .crcBytes ∧
     openReader opaqueRoar Cfg.guarded true (fun _ _ => true) (fun _ => true) [tinyFile.set 10 4, tinyFile] 0 = .ok (1, [⟨5, iceT, 1, none⟩]) := by decide
+
+/-! ## Gen obligations: the call scripts of /repo's working tree are the ones the model transcribes
+
+`BlugeGen.C12.*` is regenerated by `go/extract/c12.go` on every run; `Bluge.Codec.Script.*` are the
+annotated tables of `lean/Bluge/C12/Script.lean`.  Every statement of the eleven functions is compared,
+closed terms, by the kernel (`rfl`: both sides reduce to the same list of string literals, or the build fails). -/
+
+/-- encoder: `WriteTo` = `encFile`/`encBody` (version, count, segments, big-endian CRC of the body),
+`recordSegment` = `encSeg` (type string, 4 version bytes big endian, id, deleted length + bytes | 0),
+`writeVarLenString` = `encStr`, and the hash writer is transparent -/
+theorem gen_script_encoder :
+    BlugeGen.C12.writeTo = Script.writeTo ∧
+    BlugeGen.C12.recordSegment = Script.recordSegment ∧
+    BlugeGen.C12.writeVarLenString = Script.writeVarLenString ∧
+    BlugeGen.C12.countHashWriterWrite = Script.countHashWriterWrite := ⟨rfl, rfl, rfl, rfl⟩
+
+/-- decoder: `ReadFrom`/`readFromVersion1` = `readFromRd` + `loopCount` + `readSegments`,
+`readSegmentSnapshot` = `readSegment`, `readVarLenString`, `readN` = `readChunked`, for the configuration
+`currentCfg` the extractor reads off the same source; the hash reader counts and hashes what it hands out -/
+theorem gen_script_decoder :
+    BlugeGen.C12.readFrom = Script.readFrom ∧
+    BlugeGen.C12.readFromVersion1 = Script.readFromVersion1 currentCfg.uintLoop ∧
+    BlugeGen.C12.readSegmentSnapshot = Script.readSegmentSnapshot currentCfg.boundedReads ∧
+    BlugeGen.C12.readVarLenString = Script.readVarLenString currentCfg.boundedReads ∧
+    BlugeGen.C12.readN = Script.readN currentCfg.boundedReads ∧
+    BlugeGen.C12.countHashReaderRead = Script.countHashReaderRead := ⟨rfl, rfl, rfl, rfl, rfl, rfl⟩
+
+/-- loader: `loadSnapshot` = limit reader over all but 4 bytes, hash reader, `ReadFrom`, big-endian CRC of
+the hash reader against the last 4 bytes (copied or not before the close: `currentCfg.crcCopy`), close, then
+plugin and segment file per segment -/
+theorem gen_script_loader : BlugeGen.C12.loadSnapshot = Script.loadSnapshot currentCfg.crcCopy := rfl
+
+set_option maxRecDepth 8192 in
+/-- the tables do distinguish the pinned from the repaired code (the obligation above is not vacuous in the switch) -/
+example : Script.readVarLenString true ≠ Script.readVarLenString false ∧
+    Script.readSegmentSnapshot true ≠ Script.readSegmentSnapshot false ∧
+    Script.readFromVersion1 true ≠ Script.readFromVersion1 false ∧
+    Script.loadSnapshot true ≠ Script.loadSnapshot false := by decide
 
 /-- **The safety statement is false for the pinned code.** -/
 theorem C12_safe_fails_pinned : ¬ SafeStatement Cfg.pinned := by
